@@ -8,6 +8,7 @@ import (
 	"fmt"
 	"runtime"
 	"runtime/debug"
+	"strings"
 
 	"verif/internal/fw"
 )
@@ -71,6 +72,17 @@ func replay(c *fw.Ctx, raw json.RawMessage) {
 		}
 		classPattern(c, e, cs.Pat, all[:])
 	case "hostile":
+		if cs.Call == "deep-captures" {
+			shapes := []func(int) string{
+				func(n int) string { return strings.Repeat("(", n) + "a" + strings.Repeat(")", n) },
+				func(n int) string { return strings.Repeat("(", n) },
+				func(n int) string { return strings.Repeat("(a", n) },
+				func(n int) string { return strings.Repeat("(", n) + strings.Repeat(")", n) },
+				func(n int) string { return strings.Repeat("()", n) },
+			}
+			runDeepPattern(c, e, shapes[cs.Variant%len(shapes)](cs.Size), &cs)
+			return
+		}
 		for _, h := range hostileList() {
 			if h.fn == cs.Call && h.pat == string(cs.Pat) {
 				runHostileCase(c, e, &h, cs.Size, &cs)
